@@ -32,6 +32,13 @@ var progCache = map[string]*Prog{}
 // LoadRepo loads ./... of repo for GOARCH=arch with the given extra build tags.
 // Any type error, a package count other than 6, or a loader failure is an error (never a silent pass).
 func LoadRepo(repo, arch string, tags ...string) (*Prog, error) {
+	return loadDir(repo, arch, 6, tags...)
+}
+
+// LoadControls loads the positive-control module of the checker (testdata/controls).
+func LoadControls(dir, arch string) (*Prog, error) { return loadDir(dir, arch, 3) }
+
+func loadDir(repo, arch string, wantPkgs int, tags ...string) (*Prog, error) {
 	key := repo + "|" + arch + "|" + strings.Join(tags, ",")
 	if p, ok := progCache[key]; ok {
 		return p, nil
@@ -59,8 +66,8 @@ func LoadRepo(repo, arch string, tags ...string) (*Prog, error) {
 	if len(errs) > 0 {
 		return nil, fmt.Errorf("load/type errors for GOARCH=%s: %s", arch, strings.Join(errs, "; "))
 	}
-	if len(pkgs) != 6 {
-		return nil, fmt.Errorf("expected 6 packages under %s for GOARCH=%s, got %d", repo, arch, len(pkgs))
+	if len(pkgs) != wantPkgs {
+		return nil, fmt.Errorf("expected %d packages under %s for GOARCH=%s, got %d", wantPkgs, repo, arch, len(pkgs))
 	}
 	prog, spkgs := ssautil.AllPackages(pkgs, ssa.InstantiateGenerics)
 	prog.Build()
